@@ -719,6 +719,18 @@ def run_scal_case(env, chk, case, lines, pending):
     info = dict(cj=cj, built=obj if isinstance(obj, str) else "ok", exact=bool(case.get("exact")), ops={}, raw=raw,
                 compare=("len", "slices", "stack", "scaling", "unstack", "unscaling"))
     well_x = right_v = nonzero = False
+    if case["via"] != "state":
+        # what the constructor is specified to accept: per variable a 1-D loc and a 1-D scale of the same length
+        # (from_latent_variable first turns a 0-d tensor into a 1-element vector)
+        def _len1d(spec):
+            if spec[0] == "s":
+                return 1 if case["via"] == "latent" else None
+            return len(spec[1]) if spec[0] == "v" else None
+        refuse = any(_len1d(l) is None or _len1d(sc) is None or _len1d(l) != _len1d(sc) for _, l, sc in raw)
+        if refuse and not isinstance(obj, str):
+            chk.impl_failure(cj, "scalings accepted although a variable's loc / scale are not 1-D tensors of the same length")
+        elif not refuse and isinstance(obj, str):
+            chk.impl_failure(cj, f"construction of valid scalings raised ({obj})")
     if not isinstance(obj, str):
         names = list(obj.scalings)
         loc = {n: obj.scalings[n].loc.detach().numpy().astype(np.float32) for n in names}
